@@ -38,4 +38,18 @@ def obligations(tier, seed=0):
         obs.append((FT + 'bit_prims', dict(fn='python_trailing', bits=bits)))
     for bits in (4, 7, 10, 13, 16):
         obs.append((FT + 'sqrtrem_loops', dict(bits=bits)))
+    if tier == 'thorough':
+        for sbc, tbc, prec in [(16, 16, 11), (20, 14, 7), (24, 24, 24), (64, 64, 53), (113, 113, 113), (200, 200, 113)]:
+            for rnd in RNDS:
+                obs.append((FT + 'twin_mul', dict(kind='mul', sbc=sbc, tbc=tbc, prec=prec, rnd=rnd, _t=300)))
+        for sbc, nbc, prec in [(24, 24, 24), (64, 40, 53), (113, 30, 64), (300, 7, 113)]:
+            for rnd in RNDS:
+                for nneg in (0, 1):
+                    obs.append((FT + 'twin_mul', dict(kind='mul_int', sbc=sbc, tbc=nbc, prec=prec, rnd=rnd, nneg=nneg, _t=300)))
+        for bits in (4, 5, 6, 7, 31, 32, 33, 63, 65, 127, 128, 129, 257, 298, 303, 400, 500, 600):
+            obs.append((FT + 'bit_prims', dict(fn='python_bitcount', bits=bits)))
+        for bits in (3, 4, 5, 6, 15, 18, 24, 31, 32, 33, 64, 65, 200):
+            obs.append((FT + 'bit_prims', dict(fn='python_trailing', bits=bits)))
+        for bits in (5, 6, 8, 9, 11, 12, 14, 15, 18, 20):
+            obs.append((FT + 'sqrtrem_loops', dict(bits=bits, _t=300)))
     return obs
